@@ -104,13 +104,16 @@ function checkModule (pkg, mod, file, resp, push, counters) {
   // run the rewritten content under the original file name, collect one error per site (stack not yet formatted)
   const savedPST = Error.prepareStackTrace
   const results = {}
+  let mapTokens = []
+  let mapSources = []
+  try { const t = S.splitTrailer(resp.content); mapSources = t.map.sources; mapTokens = S.decodeMappings(t.map).filter(x => x.src !== undefined).sort((x, y) => x.genLine - y.genLine || x.genCol - y.genCol) } catch (e) {}
   try {
     Error.prepareStackTrace = undefined
     Error.stackTraceLimit = 30
     installHooks()
     let ex
     try { ex = P.compileAs(resp.content, file) } catch (e) { push('rewritten-module-failed-to-load', `running the rewritten module threw: ${e && e.message}`); return results }
-    for (const handlerPath of ['wrap-user-handler', 'format-string']) {
+    for (const handlerPath of ['wrap-user-handler', 'format-string', 'format-string', 'wrap-user-handler']) {
       const errs = collectErrors(ex, mod)
       if (mod.sites.top) { try { errs.top = new (P.compileAs(resp.content, file).topError.constructor)('x'); errs.top = P.compileAs(resp.content, file).topError } catch (e) {} }
       for (const [name, site] of Object.entries(mod.sites)) {
@@ -119,11 +122,19 @@ function checkModule (pkg, mod, file, resp, push, counters) {
         if (err.constructor.name !== site.ctor && !(name === 'hook' && err.message === 'hook-threw')) { push('unexpected-error-at-site', `site ${name}: ${err.constructor.name}: ${err.message}`); continue }
         const exp = expectedFor(mod, file, site)
         let stackValue
+        let rawSites = null
         // reference formatting without the package: tells which frames belong to the rewritten file
         try {
           if (handlerPath === 'wrap-user-handler') {
             Error.prepareStackTrace = pkg.getPrepareStackTrace((e, cs) => cs.map(c => ({ file: c.getFileName(), line: c.getLineNumber(), col: c.getColumnNumber(), raw: c.callSite ? { file: c.callSite.getFileName(), line: c.callSite.getLineNumber(), isEval: c.callSite.isEval() } : null, fn: c.getFunctionName() })))
-          } else Error.prepareStackTrace = pkg.getPrepareStackTrace()
+          } else {
+            // capture V8's raw call sites, then let the package format the string
+            const pkgHandler = pkg.getPrepareStackTrace()
+            Error.prepareStackTrace = (e, cs) => {
+              rawSites = cs.map(c => ({ file: c.getFileName(), line: c.getLineNumber(), col: c.getColumnNumber(), isEval: c.isEval(), origin: c.isEval() ? String(c.getEvalOrigin()) : null }))
+              return pkgHandler(e, cs)
+            }
+          }
           stackValue = err.stack
         } catch (e) { push('prepare-stack-trace-threw', `reading .stack with the package's prepareStackTrace threw: ${e && e.message}`); continue } finally { Error.prepareStackTrace = undefined }
         counters.stacks++
@@ -150,7 +161,21 @@ function checkModule (pkg, mod, file, resp, push, counters) {
           counters.frames++
           if (!m) push('wrong-path', `site ${name} [${handlerPath}]: frame \`${first.trim()}\` does not mention the original path ${exp.path}`)
           else if (!(+m[1] >= exp.lo && +m[1] <= exp.hi)) push('wrong-line', `site ${name} [${handlerPath}]: frame \`${first.trim()}\` reports line ${m[1]}, the statement is on original line(s) ${exp.lo}-${exp.hi}`)
-          // foreign frames identical to V8's default formatting
+          // every frame of the rewritten file (also eval frames, through their origin) must show the position an
+          // independent decoder finds for it in the embedded map of the content that was cached
+          if (rawSites && lines.length === rawSites.length) {
+            for (let fi = 0; fi < rawSites.length; fi++) {
+              const rs = rawSites[fi]
+              let f = rs.file; let l = rs.line; let c = rs.col
+              if (rs.isEval) { const m2 = /\(((?:.:[/\\]?)?[/\\].*):(\d+):(\d+)\)/.exec(rs.origin || ''); if (!m2) continue; f = m2[1]; l = +m2[2]; c = +m2[3] }
+              if (f !== file) continue
+              const tok = S.lookupGlobal(mapTokens, l - 1, c - 1)
+              if (!tok || tok.src === undefined) continue
+              const expPath = path.join(path.dirname(file), mapSources[tok.src])
+              counters.frames++
+              if (!lines[fi].includes(`${expPath}:${tok.srcLine + 1}:`)) { push('frame-not-translated', `site ${name} [${handlerPath}]: frame #${fi} \`${lines[fi].trim()}\` (raw position ${l}:${c}${rs.isEval ? ', eval origin' : ''}) should read ${expPath}:${tok.srcLine + 1}`); break }
+            }
+          }
           Error.prepareStackTrace = undefined
         }
         results[name + ':' + handlerPath] = true
@@ -198,11 +223,12 @@ module.exports = {
     const bump = (k, n = 1) => { rep.counters[k] = (rep.counters[k] || 0) + n }
     const rng = new Rng(ctx.seed, 'c11', spec.stream)
     if (spec.kind === 'sites') {
+      const sharedPkg = P.loadPackage() // module-level caches and state persist across files, as in a real process
       for (let i = 0; i < spec.count; i++) {
         const chain = i % 3 === 2
         const mod = genModule(rng.fork(i), { chain })
         const file = `/srv/c11/${rng.pick(['app', 'lib/deep', 'ñ'])}/mod_${spec.stream}_${i}.js`
-        const pkg = P.loadPackage()
+        const pkg = sharedPkg
         const rw = new pkg.Rewriter(chain ? CFG_CHAIN : CFG)
         let resp
         try { resp = rw.rewrite(mod.code, file) } catch (e) { rep.inconclusive.push({ reason: 'rewrite-failed', detail: String(e.message).slice(0, 200) }); continue }
